@@ -10,6 +10,8 @@
 * point tables with free-text columns (station names, comments) around the coordinate columns, holding the
   characters that mean something to one CSV dialect or another (`#`, `;`, `,`, quotes, tabs, blanks at the
   ends, line breaks inside a quoted field, non-ASCII), and the dialects pandas itself can write.
+* point tables of hundreds / thousands / tens of thousands of rows (a compact spec: row count, seed, the rows that
+  lie outside the model), for whatever a command does to its input piece by piece.
 
 Everything is drawn from the `rng` handed in; nothing here reads emsarray.
 """
@@ -257,3 +259,65 @@ def csv_kwargs(style: str) -> dict:
         'quote-all': {'quoting': csv.QUOTE_ALL},
         'quote-text': {'quoting': csv.QUOTE_NONNUMERIC},
     }[style]
+
+
+# ---------------------------------------------------------------------------
+# long point tables
+
+# how many rows a point file has: a handful (the other generators), hundreds, thousands, tens of thousands.  A
+# command that works through its input in pieces (blocks of rows, batches of points, a buffer) behaves like the
+# library call on every short file; only a file longer than one piece tells the two apart.
+ROW_CLASSES = {
+    'hundreds': (150, 900),
+    'thousands': (1001, 2400),
+    'thousands+': (2049, 5200),
+    'ten-thousands': (10001, 24000),
+}
+
+
+def long_points_spec(rng: random.Random, row_class: str, n_miss: int) -> dict:
+    """a compact, replayable description of a long point table: row count, the seed the rows are drawn from and the
+    rows that lie outside the model (spread over the whole file; one of them in the last tenth, one of them — when
+    there are two or more — in the first tenth, so that whatever is done per piece is done to several pieces)"""
+    lo, hi = ROW_CLASSES[row_class]
+    n = rng.randint(lo, hi)
+    miss = set()
+    if n_miss >= 1:
+        miss.add(rng.randrange(n - n // 10, n))
+    if n_miss >= 2:
+        miss.add(rng.randrange(0, n // 10))
+    while len(miss) < n_miss:
+        miss.add(rng.randrange(n))
+    return {'n': n, 'seed': rng.randrange(2 ** 32), 'miss_rows': sorted(miss), 'rows': row_class}
+
+
+def long_points_table(spec: dict, polys, cols) -> dict:
+    """the table a `long_points_spec` denotes on a dataset with the cell polygons `polys` (generator's ground truth):
+    every row inside some cell (its representative point) except `miss_rows`, which lie far outside; a name and a
+    number column that identify the row, as a CSV of stations would have"""
+    from shapely.geometry import Polygon
+    rng = random.Random(spec['seed'])
+    n = spec['n']
+    cells = [p for p in polys if p]
+    reps = {}
+
+    def rep(i):
+        if i not in reps:
+            rp = Polygon([(float(x), float(y)) for x, y in cells[i]]).representative_point()
+            reps[i] = (rp.x, rp.y)
+        return reps[i]
+    xs = [float(x) for p in cells for x, _ in p]
+    ys = [float(y) for p in cells for _, y in p]
+    miss = set(spec['miss_rows'])
+    pts = []
+    for r in range(n):
+        if r in miss:
+            pts.append((max(xs) + rng.randint(5, 500) + 0.5, min(ys) - rng.randint(5, 500) - 0.25, 'miss'))
+        else:
+            pts.append(rep(rng.randrange(len(cells))) + ('hit',))
+    return {
+        'name': [f'p{i}' for i in range(n)],
+        cols[0]: [p[0] for p in pts], cols[1]: [p[1] for p in pts],
+        'extra': [i * 3 for i in range(n)],
+        'kind': [p[2] for p in pts],
+    }
